@@ -283,8 +283,8 @@ func (rw *repoWorld) close() {
 	rw.org.Close()
 }
 
-// serve publishes a CRL: kind good|badsig|garbage|trunc|down ; keys ⊆ {x, y, z}.
-func (rw *repoWorld) serve(kind string, keys []string) {
+// build renders the next CRL of the CA (or of the forger): keys ⊆ {x, y, z} are listed.
+func (rw *repoWorld) build(kind string, keys []string) []byte {
 	rw.number++
 	var listed []*big.Int
 	for _, k := range keys {
@@ -311,7 +311,12 @@ func (rw *repoWorld) serve(kind string, keys []string) {
 	if kind == "badsig" {
 		number += 100000 // a forged list claims a number far ahead: being rejected, it must leave nothing behind that outdates the next genuine one
 	}
-	body := BuildCRL(CRLSpec{Signer: signer, Listed: listed, Avoid: avoid, Number: number}, sh)
+	return BuildCRL(CRLSpec{Signer: signer, Listed: listed, Avoid: avoid, Number: number}, sh)
+}
+
+// serve publishes a CRL: kind good|badsig|garbage|trunc|down ; keys ⊆ {x, y, z}.
+func (rw *repoWorld) serve(kind string, keys []string) {
+	body := rw.build(kind, keys)
 	// every transfer that completes stops half way at the stepper's gate "origin.midbody" (the specification's pc "fetching")
 	gated := func(b []byte) origin.Behaviour {
 		return origin.Behaviour{Kind: "gated", Body: b, Gate: func() { rw.step.handler("origin.midbody") }}
